@@ -7,11 +7,14 @@ open Scrapli Scrapli.Chan
   `scen <promptRx> <depth> <ret hex> <rough 0|1> <cuts n,n,..|.> <init avail hex> <device outputs hexlist> <rxtable> <ops>`
   rxtable: `.` or `hexprompt=rxwire` joined by `|` — the compiled form of explicit `^…$` prompts
   ops joined by `;`:  `gp` | `si:<input hex>:<strip><eager><eagerInput>` |
-                      `ii:<in/resp/hidden 0|1 joined by +>:<complete hexlist>`
+                      `ii:<in/resp/hidden 0|1 joined by +>:<complete hexlist>` |
+                      `sar:<input hex>:<strip 0|1>:<expected outputs hexlist>:<rx of _join_and_compile(outputs) | .>:<pauses 0|1… | .>`
+                      (timed read loop; `.` as rx = the empty pattern, found in every buffer; pause bit 1 = that iteration's
+                       transport read timed out; the clock never runs out)
   device = scripted: the i-th write call is answered with the i-th entry of the output list
   (what the real device printed after the real i-th write) — trace refinement.
   reply: per op `gp=<hex>` | `si=<raw>,<processed>` | `ii=<raw>,<processed>` | `stall`, joined by `;`,
-  then ` W=<writes hexlist> A=<unread hex> H=<held-back hex>`.
+  then ` W=<writes hexlist> A=<unread hex> H=<held-back hex>` (`sar=<raw>,<processed>` for the timed op).
   `dev <prompt> <trail> <cmd=out|…> <writes hexlist>` -> what `LineDev.onWrite` prints for each write;
   `linep iosxe <hex>` -> the line predicate of ScrapliProps/C01Platform.lean;  `ansi <hex>` -> chanRead of one chunk;  `ansih <held hex> <chunk hex>` -> chanReadH (output, held);  `prb <depth> <hex>` -> processReadBuf. -/
 
@@ -61,6 +64,16 @@ def runOp (cfg : Cfg) (dev : Nat → Bytes → Nat × Bytes) (op : String) (s : 
       (sendInputsInteract cfg dev events complete s).map
         (fun r => (s!"ii={Hex.encode r.1.1},{Hex.encode r.1.2}", r.2))
     | _, _ => none
+  | ["sar", i, fl, outs, orx, pz] =>
+    let outPat? : Option Pat :=
+      if orx == "." then some { search := fun _ => true, first := fun _ => none, sub := id }
+      else (Rx.parse orx).map mkPat
+    match Hex.decode i, Hex.decodeList outs, outPat? with
+    | some input, some outs, some outPat =>
+      let pauses := if pz == "." then [] else pz.toList.map (· == '1')
+      (sendInputAndRead cfg dev input (bit fl 0) outs outPat pauses none s).map
+        (fun r => (s!"sar={Hex.encode r.1.1},{Hex.encode r.1.2}", r.2))
+    | _, _, _ => none
   | _ => none
 
 def runOps (cfg : Cfg) (dev : Nat → Bytes → Nat × Bytes) : List String → St → List String → List String × St
